@@ -336,12 +336,13 @@ func cmdFile(args []string) int {
 		fmt.Fprintf(bw, "{\"start\":%q}\n", it.ID)
 		bw.Flush()
 		done := make(chan FileResult, 1)
-		go func() { done <- runFile(it, ks, work) }()
+		fin := make(chan struct{})
+		go func() { done <- runFile(it, ks, work); close(fin) }()
 		var r FileResult
-		select {
-		case r = <-done:
-		case <-time.After(behaviourTimeout):
+		if stalled(fin) {
 			r = FileResult{BehResult: BehResult{ID: it.ID, Hang: true, Findings: []Finding{{Prop: "C14", Msg: "did not finish: " + progress.phase}}, Dump: goroutineDump()}}
+		} else {
+			r = <-done
 		}
 		line, _ := json.Marshal(r)
 		bw.Write(line)
